@@ -13,6 +13,8 @@ def main(tier, seed):
     k = 3 if tier == "quick" else 4
     for rules, on_step in plan:
         jobs.append(("props.timeouts", "run_rules", (rules, on_step, dict(policy="fifo", k=k, max_paths=600 if tier == "quick" else 6000), "C19")))
+    # "not for finished tasks" under concurrency: a timer tick races with the client completing the timed act (either side pre-empted at one lock operation)
+    jobs.append(("props.race", "run_pair_race", ("tmo_act", dict(oracles=("c03",), keep=True, with_tick=True, max_paths=900 if tier == "quick" else 4000, seed=seed), "C19")))
     c.run_jobs(jobs)
     if tier != "quick":
         c.run_kani(['timeout_as_secs'])
